@@ -173,6 +173,9 @@ func runSolver(ctx context.Context, sp solverSpec, file string, timeoutS, seed i
 	case "timeout":
 		return "timeout", txt
 	}
+	if strings.HasPrefix(first, "(error") {
+		return "error", txt
+	}
 	if cctx.Err() != nil {
 		return "timeout", txt
 	}
